@@ -1,6 +1,7 @@
 """C01 - time limit bounds every evaluation.  K1 contract on VM._check_limits (also carries C02's
 memory clause), lemma on the polling period, K3 dominance / exception transparency / one-deadline
 obligations, bounded placement library."""
+from pyvc import structural as _S_
 import time
 from pyvc.api import *
 from pyvc import groups
@@ -14,12 +15,12 @@ def _consts():
     f = S.fn("microjs.vm", "VM._check_limits")
     poll = slot = frame = None
     for n in ast.walk(f):
-        if isinstance(n, ast.BinOp) and isinstance(n.op, ast.Mod) and isinstance(n.right, ast.Constant) and "instruction_count" in ast.unparse(n.left):
+        if isinstance(n, ast.BinOp) and isinstance(n.op, ast.Mod) and isinstance(n.right, ast.Constant) and "instruction_count" in _S_.unparse(n.left):
             poll = n.right.value
         if isinstance(n, ast.BinOp) and isinstance(n.op, ast.Mult) and isinstance(n.right, ast.Constant):
-            if "self.stack" in ast.unparse(n.left):
+            if "self.stack" in _S_.unparse(n.left):
                 slot = n.right.value
-            if "self.call_stack" in ast.unparse(n.left):
+            if "self.call_stack" in _S_.unparse(n.left):
                 frame = n.right.value
     return poll, slot, frame
 
@@ -104,7 +105,7 @@ def c01_dominance(tier="quick", seed=0):
         if encl:
             inner = min(encl, key=lambda l: sum(1 for _ in ast.walk(l)))
             first = inner.body[0]
-            ok = isinstance(first, ast.Expr) and isinstance(first.value, ast.Call) and ast.unparse(first.value) == "self._check_limits()"
+            ok = isinstance(first, ast.Expr) and isinstance(first.value, ast.Call) and _S_.unparse(first.value) == "self._check_limits()"
             # no `continue` between the check and the dispatch can skip... (a continue would re-enter the loop head = the check)
         out.append(ob(f"C01.dominance.{fname}", ok, "K3",
                       f"dispatch at line {line}: first statement of the enclosing loop is `self._check_limits()`: {ok}",
@@ -185,13 +186,13 @@ def c01_one_deadline(tier="quick", seed=0):
                   witness="nested code started from " + str(bad)))
     try:
         nv = S.fn("microjs.context", "Context._nested_vm")
-        src = ast.unparse(nv)
+        src = _S_.unparse(nv)
         ok = "vm.start_time = self._current_vm.start_time" in src and "time_limit=self.time_limit" in src.replace(" ", "").replace("time_limit=self.time_limit", "time_limit=self.time_limit")
     except KeyError:
         ok = False
     out.append(ob("C01.one-deadline.nested-copies-start", ok, "K3", "Context._nested_vm copies start_time and time_limit of the running evaluation"))
     run = S.fn("microjs.vm", "VM.run")
-    rs = ast.unparse(run)
+    rs = _S_.unparse(run)
     ok2 = "if self.start_time is None:" in rs and rs.count("self.start_time = time.monotonic()") == 1
     out.append(ob("C01.one-deadline.run-keeps-start", ok2, "K3", "VM.run starts the clock only when no deadline was inherited"))
     return out
@@ -217,7 +218,7 @@ def c01_current_vm(tier="quick", seed=0):
         if not own or f.name == "__init__":
             continue
         sites += 1
-        src = ast.unparse(f)
+        src = _S_.unparse(f)
         tries = [t for t in ast.walk(f) if isinstance(t, ast.Try) and t.finalbody]
         restores = [n for t in tries for st in t.finalbody for n in ast.walk(st) if n in own]
         sets = [n for n in own if n not in restores]
@@ -236,7 +237,7 @@ def c01_current_vm(tier="quick", seed=0):
                              and n.targets[0].id == rv.id and isinstance(n.value, ast.Attribute) and n.value.attr == "_current_vm"]
                     ok = len(saves) == 1 and saves[0].lineno < sets[0].lineno
                 detail = "nested entry: previous value saved before the set and restored in finally"
-        out.append(ob(f"C01.current-vm.{f.name}", ok, "K3", detail if ok else f"{f.name}: _current_vm is set {len(sets)}x and restored {len(restores)}x in finally; restore value {ast.unparse(restores[0].value) if restores else None}",
+        out.append(ob(f"C01.current-vm.{f.name}", ok, "K3", detail if ok else f"{f.name}: _current_vm is set {len(sets)}x and restored {len(restores)}x in finally; restore value {_S_.unparse(restores[0].value) if restores else None}",
                       witness="eval('1'); /(a*)*b/.test(long) after an indirect eval (the RegExp gets no deadline)"))
     out.append(ob("C01.current-vm.sites", sites >= 2, "K3", f"{sites} functions set Context._current_vm"))
     return out
@@ -259,8 +260,8 @@ def c01_regex_polls(tier="quick", seed=0):
                 continue
             loops += 1
             head = w.body[:3]
-            txt = "\n".join(ast.unparse(x) for x in head)
-            counter = [ast.unparse(x.target) for x in head if isinstance(x, ast.AugAssign) and isinstance(x.op, ast.Add)
+            txt = "\n".join(_S_.unparse(x) for x in head)
+            counter = [_S_.unparse(x.target) for x in head if isinstance(x, ast.AugAssign) and isinstance(x.op, ast.Add)
                        and isinstance(x.value, ast.Constant) and x.value.value == 1]
             counts = bool(counter)
             polls = counts and f"{counter[0]} % self.poll_interval == 0" in txt and "self.poll_callback()" in txt and "raise RegexTimeoutError" in txt
